@@ -127,6 +127,35 @@ def goal_scripts(ctx, goals, consts, prop, first_id):
     return out
 
 
+def concretise(ctx, rng, scripts):
+    """Seeded concrete options the model leaves open: raft commit_retries (0 and 1 are accepted by
+    Config.Validate; removals must behave the same), and one joiner whose state arrives slowly
+    (many pins, slow pinset store) so that "ready" and "synced" are far apart in time."""
+    import vcheck
+    def has(sc, pred):
+        return any(pred(st) for st in sc["steps"])
+    rm_ok = [sc for sc in scripts if has(sc, lambda st: st["a"] == "rm" and st["out"] == "ok")]
+    rm_err = [sc for sc in scripts if has(sc, lambda st: st["a"] == "rm" and st["out"] == "error")]
+    rng.shuffle(rm_ok)
+    rng.shuffle(rm_err)
+    zero = rm_err[:1] + [sc for sc in rm_ok if sc not in rm_err[:1]][:2 if ctx.quick() else 12]
+    one = [sc for sc in rm_ok if sc not in zero][:2 if ctx.quick() else 12]
+    for sc in zero:
+        sc["retries"] = 0
+    for sc in one:
+        sc["retries"] = 1
+    if not zero:
+        raise vcheck.Infra("no script with a removal to run with commit_retries = 0")
+    slow = [sc for sc in scripts if has(sc, lambda st: st["a"] == "join" and st["pins"]) and "retries" not in sc] or \
+           [sc for sc in scripts if has(sc, lambda st: st["a"] == "join")]
+    for sc in slow[:1 if ctx.quick() else 4]:
+        sc["ballast"] = 200
+        sc["slowjoin"] = 10
+    ctx.extra["commit_retries_0_scripts"] = len(zero)
+    ctx.extra["commit_retries_1_scripts"] = len(one)
+    ctx.extra["slow_joiner_scripts"] = len(slow[:1 if ctx.quick() else 4])
+
+
 def run_member_driver(ctx, scripts, prop, label, par):
     import vcheck
     inp = os.path.join(ctx.work, "%s_scripts.ndjson" % label)
@@ -169,6 +198,7 @@ def run(ctx):
     ctx.exhaustive = True
     gen_cfg = write_cfg(ctx, "gen", 3, 2, 3, 4, 1, check=False)
     scripts = scripts_from_graph(ctx, rng, gen_cfg, 24 if ctx.quick() else 500, 8)
+    concretise(ctx, rng, scripts)
     ctx.log("selected %d scripts covering %s" % (len(scripts), ctx.extra.get("membership_kinds_covered")))
     run_member_driver(ctx, scripts, "C17", "c17", 8)
 
